@@ -1,5 +1,5 @@
 (* C18 — Offline scripts frame transactions correctly for each dialect.   Statement-only file. *)
-From AV Require Import Spec.C18 Proofs.OfflineProof Gen.DialectTables.
+From AV Require Import Spec.C18 Proofs.OfflineProof Gen.DialectTables Model.C18Replay Proofs.C18ReplayProof.
 
 (* the decider applied to the implementation's output is sound for the property *)
 Theorem C18_decider_sound : forall i o, check_C18 i o = true -> C18_holds i o.
@@ -89,6 +89,46 @@ Theorem C18_cut_short : forall d c r, table_wf d = true ->
   C18_cut_hold (effective_tddl d c) r (tokenize d (offline_chunks_cut d c r)).
 Proof. exact cut_thm. Qed.
 Print Assumptions C18_cut_short.
+
+(* ONE statement of well-bracketedness, for every dialect entry, every setting and every plan length (with or without
+   CREATE at base / DROP at base, start:end ranges, autocommit sections): with transactional DDL every BEGIN is closed by
+   exactly one COMMIT and none is nested, every statement that is not in an autocommit section — in particular every
+   version-table statement and the CREATE/DROP of the version table — lies inside a bracket, autocommit statements lie
+   between two brackets; without transactional DDL there is no bracket at all *)
+Theorem C18_well_bracketed : forall d c r, table_wf d = true ->
+  let E := strip_sep (offline_events d c r) in
+  (effective_tddl d c = true ->
+     framed false E /\
+     (forall e b i, In (e, b, i) (ann 0 false E) -> i = negb (is_auto e)) /\
+     (forall e b i, In (e, b, i) (ann 0 false E) -> is_auto e = true -> 1 <= b /\ b < count_begin E)) /\
+  (effective_tddl d c = false -> forall e, In e (offline_events d c r) -> is_marker e = false).
+Proof. exact well_bracketed_thm. Qed.
+Print Assumptions C18_well_bracketed.
+
+(* replaying ANY well-bracketed script on a database with real transactional DDL executes each of its statements exactly
+   once, in order, durably, and leaves no transaction open (den: what a statement does; arbitrary) *)
+Theorem C18_replay_well_framed : forall den evs s, well_framed (strip_sep evs) ->
+  replay den evs (mkDB s None) = mkDB (exec_all den (filter content evs) s) None.
+Proof. exact replay_well_framed. Qed.
+Print Assumptions C18_replay_well_framed.
+
+(* and a script cut short by an exception loses and duplicates nothing either: only its last block is still open *)
+Theorem C18_replay_cut : forall den evs s dp, run_depth false (strip_sep evs) = Some dp ->
+  view (replay den evs (mkDB s None)) = exec_all den (filter content evs) s.
+Proof. exact replay_cut. Qed.
+Print Assumptions C18_replay_cut.
+
+(* the script of a plan (each step: its migration body and its bookkeeping statements — the granularity of C12) replayed
+   on a transactional database has the effect of the ONLINE run of the same plan (Model/Txn.v, any transaction setting):
+   same schema effects, same version rows, nothing left pending *)
+Theorem C18_replay_equals_online : forall d c plan d0 t p exc, table_wf d = true ->
+  let script := offline_events d c (run_of plan (vrows d0)) in
+  let D' := replay (den plan) script (mkDB d0 None) in
+  let i := mkIn TxDDL t p false (steps_of plan) d0 exc in
+  pending D' = None /\
+  effs (committed D') = effs (o_db (txn_run i)) /\ vrows (committed D') = vrows (o_db (txn_run i)).
+Proof. exact replay_equals_online. Qed.
+Print Assumptions C18_replay_equals_online.
 
 (* ---- non-vacuity: a transactional dialect of the table, two steps, the first with an autocommit section ---- *)
 Definition ex_run : run := mkRun true [mkOstep [IStmt 0%N; IAuto [1%N]; IStmt 2%N] 1 false; mkOstep [IStmt 0%N] 1 false] false.
